@@ -282,7 +282,8 @@ def backport_rule(repo: Repo) -> RuleRun:
     loops = [n for n in walk_shallow(fn.node) if isinstance(n, ast.While)]
     r.require(len(loops) == 1, "optimize: while loop not found")
     body = [ast.unparse(s) for s in loops[0].body]
-    ok = any("optimize_iteration" in b for b in body) and ast.unparse(loops[0].test).replace(" ", "") == "notdriver.converged"
+    t_ = loops[0].test
+    ok = any("optimize_iteration" in b for b in body) and isinstance(t_, ast.UnaryOp) and isinstance(t_.op, ast.Not) and isinstance(t_.operand, ast.Attribute) and t_.operand.attr == "converged"
     r.check(ok, fn, "iterate until driver.converged", f"optimize loop is 'while {ast.unparse(loops[0].test)}': {body}", loops[0], key="loop")
     # bp after loop
     bps = [n for n in g.stmt_nodes() if is_bp(n)]
